@@ -30,6 +30,8 @@ type OpCase struct {
 	Class  string   `json:"class"` // signature class: location, type class, container, flags
 	Cons   []string `json:"consumes,omitempty"`
 	Defs   J        `json:"definitions,omitempty"`
+	// ExtraOp overrides parts of the operation object (responses, produces): used by C01/C04
+	ExtraOp J `json:"extra_op,omitempty"`
 }
 
 type ptype struct {
